@@ -63,6 +63,20 @@ class Tree:
                 self.disconnected.append(conn)
                 self.order.append(('disconnect', conn.label))
             return A.SimpleAwaitable(it2.aio, 'disconnect', body)
+        self.broadcasts: list = []          # ghost: what every child was handed, in order (fan-out contract C14.fanout.* / C13.fanout.*)
+
+        def c_fanout(it2, f, args, kwargs):
+            """send_messages_to_children by its contract (proved for an arbitrary child of an arbitrarily long list, never suspending):
+            every current child is handed all the messages; recorded once in `broadcasts`, delivered to the concrete children of the shape"""
+            msgs = list(args[1:])
+
+            def body(it3):
+                self.broadcasts.append(msgs)
+                for ch in args[0].attrs['children']:
+                    self.sent.setdefault(ch.attrs['connection'].label, []).extend(msgs)
+                    self.order.append(('queue', ch.attrs['connection'].label))
+            return A.SimpleAwaitable(it2.aio, 'send_messages_to_children', body, yields=False)
+        it.hooks[f'{DN}:DistributedNetwork.send_messages_to_children'] = c_fanout
         it.hooks[f'{CONN}:DataConnection.queue_messages'] = c_queue_messages
         it.hooks[f'{CONN}:DataConnection.send_message'] = c_send_message
         it.hooks[f'{CONN}:DataConnection.disconnect'] = c_disconnect
@@ -146,6 +160,21 @@ class Tree:
             f = z3.And(f, (z3.BoolVal(t) if isinstance(t, bool) else t) == want)
         return f
 
+    def told_children_formula(self):
+        """what ANY child that was present during the handler was told last (from the broadcast log): unbounded in the number of children"""
+        flat = [m for b in self.broadcasts for m in b]
+        lv = [m for m in flat if isinstance(m, Obj) and m.cls.qual == 'DistributedBranchLevel.Request']
+        rt = [m for m in flat if isinstance(m, Obj) and m.cls.qual == 'DistributedBranchRoot.Request']
+        if not lv:
+            return None
+        root, level = self.adv()
+        f = z3int(lv[-1].attrs['level']) == level
+        if rt:
+            f = z3.And(f, z3str(rt[-1].attrs['username']) == root)
+        else:
+            f = z3.And(f, level == 0, root == self.me.t)
+        return f
+
     def told_child_formula(self, child):
         msgs = self.sent.get(child.attrs['connection'].label, [])
         lv = [m for m in msgs if isinstance(m, Obj) and m.cls.qual == 'DistributedBranchLevel.Request']
@@ -208,6 +237,8 @@ def prove_check_new_parent(src_root, ex: Explorer):
             ctx.prove(f'C13.told._set_parent.server[{tg}]', f if f is not None else False)
             cf = t.told_child_formula(t.children[0])
             ctx.prove(f'C13.told._set_parent.children[bounded]', cf if cf is not None else False)
+            bf = t.told_children_formula()
+            ctx.prove('C13.told._set_parent.children', bf if bf is not None else False, 'the children are not told the position derived from the new parent')
     ex.run(path, 'check_new_parent')
 
 
@@ -253,6 +284,8 @@ def prove_branch_handlers(src_root, which, ex: Explorer):
         for c in t.children:
             cf = t.told_child_formula(c)
             ctx.prove(f'C13.told.{h}.children[bounded]', cf if cf is not None else False)
+        bf = t.told_children_formula()
+        ctx.prove(f'C13.told.{h}.children', bf if bf is not None else False, 'the children are not told the new position')
     ex.run(path, f'branch-{which}')
 
 
@@ -458,8 +491,18 @@ def prove_peer_lookup(src_root, ex: Explorer):
     ex.run(path, 'peer-lookup')
 
 
+def prove_fanout_relies(src_root, ex: Explorer):
+    """the fan-out contract the unbounded children obligations use (send_messages_to_children: an arbitrary child of an arbitrarily long
+    list is handed every message, without suspension) - C14.fanout.*, discharged here as well"""
+    from contracts import C14
+    C14.prove_fanout(src_root, ex)
+    for ob in ex.obligations:
+        if ob.name.startswith('C14.fanout'):
+            ob.name = 'C13.fanout' + ob.name[len('C14.fanout'):]
+
+
 def items(src_root, tier):
-    return [('peer-lookup', None), ('candidates', None), ('adv', None), ('check_parent', None), ('branch', 'level'), ('branch', 'root'), ('unset', None), ('admit', None),
+    return [('fanout', None), ('peer-lookup', None), ('candidates', None), ('adv', None), ('check_parent', None), ('branch', 'level'), ('branch', 'root'), ('unset', None), ('admit', None),
             ('max_children', None), ('session', None)]
 
 
@@ -470,6 +513,8 @@ def run_item(src_root, item, tier):
     try:
         if kind == 'candidates':
             prove_candidates(src_root, ex)
+        elif kind == 'fanout':
+            prove_fanout_relies(src_root, ex)
         elif kind == 'peer-lookup':
             prove_peer_lookup(src_root, ex)
         elif kind == 'adv':
